@@ -12,6 +12,7 @@ KNOWN = ("tests/analyze/test_start_with_silence.py::test_start_with_silence, tes
          "tests/analyze/test_time_signature_change.py::test_time_signature_change")
 EXTRA = {
     "3": "", "4": "",
+    "8": ("Favour, this time, changes in code reached through class methods / alternative constructors, through an option value no example in the docs uses, or where TWO features interact (each fine alone); the breakage should survive a casual look at the result of a single call. "),
     "7": ("Favour, this time, changes in code reached through class methods / alternative constructors, through an option value no example in the docs uses, or where TWO features interact (each fine alone); the breakage should survive a casual look at the result of a single call. "),
     "6": ("Favour changes whose effect only shows through a SECOND public entry point or a later call (the first use looks right), or only for one rarely used value of an option; avoid zero-length notes and tag sets, which the last rounds covered. "),
     "5": ("Favour, this time, changes that need TWO things to line up: two cooperating sites that each look fine alone, a value that is only wrong "
